@@ -49,7 +49,7 @@ COMPONENTS = {
     "real": ["ExternalOptimizer.start/_handle_request", "_PluginOptimizer.run/_request/_callback", "_JSONPipeCommunicator", "EnsembleOptimizer", "SciPy plug-in + scipy.optimize in the child (45%)", "config dump -> JSON -> re-validation"],
     "stub": ["SimKernel (FIFOs, selector, process table, signals, clock, scheduler)", "sim/scripted optimizer in the child (55%)", "SimEvaluator"],
 }
-PROBES = ["config_with_path_field", "explicit_start_point", "delimiter_straddles_boundary", "kill_right_after_message", "evaluator_raised_with_dead_child", "equality_compared", "kill_child", "kill_while_parent_evaluating", "child_raises", "child_exits_nonzero", "evaluator_raises",
+PROBES = ["evaluator_interrupts", "numpy_scalar_option", "config_with_path_field", "explicit_start_point", "delimiter_straddles_boundary", "kill_right_after_message", "evaluator_raised_with_dead_child", "equality_compared", "kill_child", "kill_while_parent_evaluating", "child_raises", "child_exits_nonzero", "evaluator_raises",
           "evaluator_aborts", "max_functions", "stall", "spawn_fails", "small_pipe", "short_write", "large_message_runs",
           "messages_exchanged", "child_dead_checked", "real_scipy_child", "simulated_seconds"]
 REAL = ["slsqp", "l-bfgs-b", "cobyla", "nelder-mead", "differential_evolution"]
@@ -84,6 +84,10 @@ def _group_scenario(gseed: int, large: bool) -> dict:
                 opt["parallel"] = True
         else:
             opt["options"] = {"maxiter": rng.randint(1, 3)}
+            if rng.random() < 0.3:
+                # an option value computed with NumPy (np.int64): works in-process, has to cross the pipe too
+                opt["options"]["maxiter"] = {"__np__": "int64", "value": opt["options"]["maxiter"]}
+                scn["numpy_scalar_option"] = True
         cfg["optimizer"] = opt
         if backend == "cobyla" and cfg.get("nonlinear_constraints"):
             nl = cfg["nonlinear_constraints"]
@@ -98,6 +102,12 @@ def _group_scenario(gseed: int, large: bool) -> dict:
         cfg["realizations"]["realization_min_success"] = 0
         if backend == "scripted":
             cfg["optimizer"]["options"]["allow_nan"] = True
+        # (filters and the stddev estimator have their own reasons to stop at such an evaluation: leave them out)
+        for key in ("realization_filters", "function_estimators"):
+            cfg.pop(key, None)
+            cfg["objectives"].pop(key, None)
+            if cfg.get("nonlinear_constraints"):
+                cfg["nonlinear_constraints"].pop(key, None)
         scn["faults"].append({"kind": "nan", "eval": rng.randrange(0, 3), "real": None, "pert": None, "col": None})
     if not large and rng.random() < 0.35:
         # the step is started from an explicit point (a restart), not from the configured initial values
@@ -243,7 +253,8 @@ def execute(scn: dict) -> dict:
         elif member == 6:
             fault = {"kind": "child_exits_nonzero", "q": frng.randrange(0, max(1, Q))} if backend == "scripted" else {"kind": "kill_child", "at": frng.randrange(1, max(2, S))}
         elif member == 7:
-            fault = {"kind": "evaluator_raises", "m": frng.randrange(0, max(1, M))}
+            # the user's evaluator raises: an ordinary exception, or one that is not an Exception (Ctrl-C in the evaluator)
+            fault = {"kind": "evaluator_raises", "m": frng.randrange(0, max(1, M)), "interrupt": frng.random() < 0.5}
         elif member == 8:
             fault = {"kind": "evaluator_aborts", "m": frng.randrange(0, max(1, M))}
         elif member == 9:
@@ -289,7 +300,9 @@ def execute(scn: dict) -> dict:
             fs["configs"][0]["optimizer"]["options"]["exit_at"] = fault["q"]
             child_fault = True
         elif kind == "evaluator_raises":
-            fs["faults"] = list(fs.get("faults", [])) + [{"kind": "raise", "eval": fault["m"]}]
+            fs["faults"] = list(fs.get("faults", [])) + [{"kind": ("interrupt" if fault.get("interrupt") else "raise"), "eval": fault["m"]}]
+            if fault.get("interrupt"):
+                probe("evaluator_interrupts")
         elif kind == "evaluator_raises_after_child_died":
             fs["faults"] = list(fs.get("faults", [])) + [{"kind": "raise", "eval": fault["m"]}]
             kfaults.append({"kind": "kill_child", "at": fault["at"]})
@@ -376,6 +389,8 @@ def execute(scn: dict) -> dict:
                 probe("explicit_start_point")
             if scn.get("with_output_dir"):
                 probe("config_with_path_field")
+            if scn.get("numpy_scalar_option"):
+                probe("numpy_scalar_option")
             differs = da != db
             if differs and backend != "scripted" and ctx is not None:
                 # SciPy's algorithms are not bit-reproducible between two call contexts (BLAS results depend on
